@@ -52,6 +52,13 @@ CLAIMED = {
             "TLC explores every assignment history over a small key universe (full reachable graph), proves the trie model refines a "
             "dictionary, and every (state, assignment) edge is replayed on the real TrieDict with all observers compared by the trace spec.",
             "Trusted: TLC, TrieDict.tla's transcription of trie_dict.py, the driver's projection of observer results to strings."),
+    "C08": ("DESIGN.md section 4 / C08",
+            "publicsuffix.org algorithm as a TLA+ definition + implementation-shaped SuffixTrie model; TLC checks Walk = PSL on every rule set up to a size (all hosts of depth <= 4) and insertion-order independence; rule sets and bundled-list hosts generated by TLC, replayed into the real SuffixTrie / tld functions; TLC trace validation",
+            "TLC proves, for every rule set of <= 3 (thorough: 4) normal/wildcard/exception rules over 3 labels and all 120 hosts, that the trie walk "
+            "returns the PSL suffix; the same rule sets are loaded into the real SuffixTrie and every answer compared by the trace spec; hosts derived "
+            "from the ~9,950 bundled rules are run through split_suffix / get_domain_name / has_valid_suffix / has_valid_tld and judged against the "
+            "algorithm evaluated by TLC over the bundled rules.",
+            "Trusted: TLC; export of the bundled rule list (data) with an ASCII armour for IDN labels; nested-exception hosts skipped."),
     "C09": ("DESIGN.md section 4 / C09",
             "TLA+ model of HostnameTrieSet over TrieDict!SetAndPrune checked by TLC against the abstract set of added hosts (all histories, finite universe); edge cover + random histories replayed into the real class; TLC trace validation",
             "TLC explores all 2^14 / 2^12 sets of added hosts (every history of any length over the universe), checks antichain refinement, "
